@@ -184,6 +184,40 @@ CtlCases ==
             <<Set("r", IfSet("y", WInt, Arg(IntV(4), m[1]), Block(<<Mark(1), Bin("+", V("y"), Arg(IntV(1), m[2]))>>), Block(<<Mark(2), I(0)>>))), V("r")>>, {})
           : m \in Masks(2)}
 
+\* ---------------------------------------------------------------- a constant next to a bare NAME
+\* Identities the folder may be tempted by (0 * x, x * 0, 0 % x, x % 1, 0 / x, x ** 0, 0 << x, x & 0, x - x, x / x, x == x ...)
+\* hold only for some values of x: the operand is a parameter (a plain read of a name bound to a non-constant value, with
+\* no effect of its own), called with hidden arguments from the boundary set, the constant on either side; and the
+\* same name on both sides.  A literal right operand that makes the operation fail whenever it is evaluated may be
+\* reported when the program is checked (the permitted difference).
+NameConsts == {0, 1, -1}
+NameVals == {0, 1, -1, 7, 64}
+RtyOf(op) == IF IsCmp(op) THEN WBool ELSE WInt
+NameCases ==
+  {ProgCase("name-" \o ToString(c) \o op \o "x=" \o ToString(xv),
+            <<FnDecl("g", <<P("x", WInt)>>, RtyOf(op), <<Ret(Bin(op, I(c), V("x")))>>), CallE(V("g"), <<Hide(WInt, I(xv))>>)>>, {})
+     : op \in IntOps, c \in NameConsts, xv \in NameVals}
+  \cup {ProgCase("name-x" \o op \o ToString(c) \o "-x=" \o ToString(xv),
+            <<FnDecl("g", <<P("x", WInt)>>, RtyOf(op), <<Ret(Bin(op, V("x"), I(c)))>>), CallE(V("g"), <<Hide(WInt, I(xv))>>)>>,
+            IF FailKind(op, IntV(xv), IntV(c)) # "none" THEN {FailKind(op, IntV(xv), IntV(c))} ELSE {})
+     : op \in IntOps, c \in NameConsts, xv \in NameVals}
+  \cup {ProgCase("name-x" \o op \o "x-x=" \o ToString(xv),
+            <<FnDecl("g", <<P("x", WInt)>>, RtyOf(op), <<Ret(Bin(op, V("x"), V("x")))>>), CallE(V("g"), <<Hide(WInt, I(xv))>>)>>, {})
+     : op \in IntOps, xv \in NameVals}
+  \* the same through a local bound from a cell, and through a loop variable
+  \cup {ProgCase("local-" \o ToString(c) \o op \o "x=" \o ToString(xv),
+            <<Set("cl", MutE(WInt, I(xv))), Set("x", Deref(V("cl"))), Mark(1), Set("r", Bin(op, I(c), V("x"))), Mark(2), V("r")>>, {})
+     : op \in {"*", "/", "%", "**", "<<", ">>", "&"}, c \in {0, 1}, xv \in NameVals}
+  \cup {ProgCase("loopvar-" \o ToString(c) \o op,
+            <<Set("acc", MutE(WInt, I(0))),
+              For("x", IterE(ArrE(<<I(7), I(1), Hide(WInt, I(0)), I(-1)>>)), Block(<<Mark(1), Asg("+=", V("acc"), Bin(op, I(c), V("x")))>>)),
+              Deref(V("acc"))>>, {})
+     : op \in {"*", "/", "%", "**", "&"}, c \in {0, 1}}
+  \cup {ProgCase("name-bool-" \o op \o ToString(a) \o ToString(b),
+            <<FnDecl("g", <<P("x", WBool)>>, WBool, <<Ret(IF op = "and" THEN AndE(V("x"), B(b)) ELSE OrE(V("x"), B(b)))>>), CallE(V("g"), <<Hide(WBool, B(a))>>)>>, {})
+     : op \in {"and", "or"}, a \in BOOLEAN, b \in BOOLEAN}
+NameSeq == SetToSeq(NameCases)
+
 \* ---------------------------------------------------------------- contexts for expression templates
 Contexts == {"top", "fn", "fn-uncalled", "after-effect", "via-name"}
 InCtx(t, ctx) ==
@@ -200,7 +234,7 @@ ChainCases == {[name |-> t.name \o "/" \o ctx, prog |-> InCtx(t, ctx), allow |->
 
 CaseSeq0 == SetToSeq(ExprCases) \o SetToSeq(CtlCases)
 ChainSeq == SetToSeq(ChainCases)
-CaseSeq == SelectSeq([i \in 1..Len(CaseSeq0) |-> IF i % SampleMod = 0 THEN CaseSeq0[i] ELSE NoneV], LAMBDA b : b # NoneV) \o ChainSeq
+CaseSeq == SelectSeq([i \in 1..Len(CaseSeq0) |-> IF i % SampleMod = 0 THEN CaseSeq0[i] ELSE NoneV], LAMBDA b : b # NoneV) \o ChainSeq \o NameSeq
 N == Len(CaseSeq)
 Fuel == 2000
 Out(i) == Outcome(Run(CaseSeq[i].prog, Fuel))
